@@ -162,6 +162,13 @@ def run_job(spec, ctx):
                               'variant': variant[0]} for inp in H.witness_models(eng, neg, names, H.nice_pins(shape)[:2])]
                     H.mark_last(cands)
                     ctx.ob(f'{variant[0]}: per-call == model-level', 'sat' if cands else 'unknown', cands)
+                elif r == 'unknown':
+                    # undecided (integer-valued t inside QF_NRA): the result terms are NOT the same term, so corner points of the
+                    # domain are replayed on the real code; only a reproduced difference is reported, otherwise it stays inconclusive
+                    pts = [e for e in H.corner_inputs(names, 40) if all(n in e for n in names)]
+                    cands = [{'inputs': dict(pts[0], __alt__=pts[1:]), 'model': key, 'shape': list(shape), 'ranks': list(ranks), 'clause': clause,
+                              'variant': variant[0]}] if pts else []
+                    ctx.ob(f'{variant[0]}: per-call == model-level (undecided by z3; corner points replayed)', 'sat' if cands else 'unknown', cands or None)
                 else:
                     ctx.ob(f'{variant[0]}: per-call == model-level', r)
             ctx.add_engine(eng)
